@@ -345,7 +345,11 @@ func c05(args []string) int {
 			if err := json.Unmarshal(raw, &j); err != nil {
 				return c05Res{Err: err.Error()}
 			}
-			return c05Exec(j)
+			r, ok := confirm(func() c05Res { return c05Exec(j) }, func(r c05Res) bool { return r.Replayed })
+			if !ok {
+				return c05Res{Err: unstableMsg}
+			}
+			return r
 		})
 	}
 	f := explore.ParseFlags("C05", args, nil)
